@@ -51,6 +51,11 @@ pub fn gen(seed: u64, idx: u64, tier: Tier) -> Case {
     let mut plan = imgwr::plan_from_seed(rng.next_u64(), version);
     plan.v3_size_high_garbage = false;
     plan.library_like_trees = rng.chance(1, 2);
+    if idx >= ndifat && idx % 12 == 5 {
+        // excess FAT sectors: the DIFAT spills into DIFAT sectors although the file is small
+        let hi = if rng.chance(1, 4) { 140 } else { 12 };
+        plan.extra_fat_sectors = 108 + rng.range(1, hi) as u32;
+    }
     let (max_entries, max_stream) = if idx < ndifat {
         plan.min_fat_sectors = 110 + rng.below(3) as u32;
         (10, 20_000)
